@@ -211,37 +211,53 @@ func runMTLSCase(c mtCase, bin, tmp string) map[string]interface{} {
 	for _, cred := range intruderCreds {
 		attempts = append(attempts, intrude(addr.String(), c.Proto, "main", cred))
 	}
-	if c.Proto == "grpc" {
-		// a listener the plugin opens for a brokered id, and one the host opens
+	if c.Proto == "grpc" || c.Proto == "grpcmux" {
+		// a listener the plugin opens for a brokered id, and one the host opens. Without multiplexing
+		// each is a socket file of its own (found as the new socket under TMPDIR) that the intruder
+		// attacks; with multiplexing the stream travels inside the main socket. In both cases the
+		// legitimate brokered connection must itself be mutually authenticated.
 		before := snapshot(tmp)
 		stub.Do(vp.Cmd{Op: "serve", ID: 501, S: "501"})
 		var socks []string
-		for i := 0; i < 200 && len(socks) == 0; i++ {
-			time.Sleep(10 * time.Millisecond)
-			socks = newSockets(tmp, before)
+		if c.Proto == "grpc" {
+			for i := 0; i < 200 && len(socks) == 0; i++ {
+				time.Sleep(10 * time.Millisecond)
+				socks = newSockets(tmp, before)
+			}
 		}
 		tag, err := stub.Broker.DialWho(501)
-		attempts = append(attempts, mtAttempt{Listener: "plugin_brokered", Cred: "peer_keypair", Served: err == nil && tag == "501"})
+		attempts = append(attempts, mtAttempt{Listener: "plugin_brokered", Cred: "peer_keypair", Served: err == nil && tag == "501" && vp.SecOf(501) == "tls",
+			Err: fmt.Sprintf("err=%v tag=%s peer-auth=%s", err, tag, vp.SecOf(501))})
 		for _, s := range socks {
 			for _, cred := range intruderCreds {
 				attempts = append(attempts, intrude(s, "grpc", "plugin_brokered", cred))
 			}
 		}
+		nfound := len(socks)
 		before = snapshot(tmp)
 		stub.Broker.ServeWho(502, "502")
 		socks = nil
-		for i := 0; i < 200 && len(socks) == 0; i++ {
-			time.Sleep(10 * time.Millisecond)
-			socks = newSockets(tmp, before)
+		if c.Proto == "grpc" {
+			for i := 0; i < 200 && len(socks) == 0; i++ {
+				time.Sleep(10 * time.Millisecond)
+				socks = newSockets(tmp, before)
+			}
+		} else {
+			time.Sleep(50 * time.Millisecond)
 		}
 		r, err := stub.Do(vp.Cmd{Op: "dial", ID: 502})
-		attempts = append(attempts, mtAttempt{Listener: "host_brokered", Cred: "peer_keypair", Served: err == nil && r.S == "502"})
+		sec := ""
+		if len(r.L) > 0 {
+			sec = r.L[0]
+		}
+		attempts = append(attempts, mtAttempt{Listener: "host_brokered", Cred: "peer_keypair", Served: err == nil && r.S == "502" && sec == "tls",
+			Err: fmt.Sprintf("err=%v tag=%s peer-auth=%s", err, r.S, sec)})
 		for _, s := range socks {
 			for _, cred := range intruderCreds {
 				attempts = append(attempts, intrude(s, "grpc", "host_brokered", cred))
 			}
 		}
-		out["brokered_sockets_found"] = len(socks)
+		out["brokered_sockets_found"] = nfound + len(socks)
 	}
 	out["attempts"] = attempts
 	after := cp.Ping() == nil
